@@ -88,7 +88,9 @@ bool MPSInput::readLine()
       // Read until we have a non-empty, non-comment line.
       do
       {
-         if(!m_input.getline(m_buf, sizeof(m_buf)).good() && !m_input.eof())
+         // a read that delivers nothing fails - also at the end of the file: a file without ENDATA must not be
+         // re-read forever (only the eof bit is set when the last line merely lacks its newline)
+         if(m_input.getline(m_buf, sizeof(m_buf)).fail())
             return false;
 
          m_lineno++;
